@@ -112,6 +112,20 @@ Theorem C11_open_after_close_refuted :
 Proof. exact open_after_close_refuted. Qed.
 Print Assumptions C11_open_after_close_refuted.
 
+(* a failing trunk READ, of any kind (a time-out that an expired read deadline produces included) and at any offset of
+   the stream — EvTrunkFail in the schedules of C11_prefix_all_schedules, which therefore already says that what was
+   delivered is a frame-wise prefix —: the reader latches an error, closes the Mux and never reads again.  That the code
+   does not re-issue a trunk read after an error is read from mux.go on every run (MuxConsts.read_error_is_final; by a
+   run-time probe when the reads sit in helpers) *)
+Theorem C11_read_failure_ends_reader :
+  read_error_is_final = true /\
+  forall s, m_reader_done s = false ->
+    let s' := reader_fail_step s in
+    m_closed s' = true /\ m_reader_done s' = true /\ m_err s' <> None /\
+    reader_step s' = s' /\ reader_fail_step s' = s'.
+Proof. exact (conj read_error_final_ok read_failure_ends_reader). Qed.
+Print Assumptions C11_read_failure_ends_reader.
+
 (* a length field above any bound.  The code has no upper bound on the announced length: the reader allocates what the
    header says and waits for it.  A header that announces more than the trunk will ever carry is no frame: when the trunk
    ends the reader sees an end-of-file (no byte of the payload came) or a cut payload, closes the Mux and queues nothing *)
